@@ -37,7 +37,9 @@ def sync(name, appends):
             '--exclude', '/rust-toolchain.toml', '--exclude', '/python', '--exclude', '/.cargo']
     for rel in appends:
         excl += ['--exclude', '/' + rel]
-    subprocess.run(['rsync', '-a', '--delete'] + excl + [REPO + '/', dst + '/'], check=True)
+    # content-based: a file is rewritten exactly when its bytes differ, and then gets a fresh mtime, so cargo (which goes by
+    # mtime) rebuilds even when the repository was restored with old timestamps; unchanged files keep theirs (cache stays valid)
+    subprocess.run(['rsync', '-rlpgoD', '--checksum', '--delete'] + excl + [REPO + '/', dst + '/'], check=True)
     for rel, extra in appends.items():
         with open(os.path.join(REPO, rel)) as f:
             want = f.read() + '\n' + extra
